@@ -10,6 +10,40 @@ var inputClasses = map[string]func(input []byte) bool{
 	"atx-backslash-before-trailing-space": atxBackslashBeforeTrailingSpace,
 	"setext-heading-root-after-definition": setextRootAfterDefinition,
 	"root-block-above-streaming-limit":     rootAboveStreamingLimit,
+	"label-at-999-limit-across-lines":      labelAtLimitAcrossLines,
+}
+
+// labelAtLimitAcrossLines: the document has a bracketed run `[...]` without inner brackets that spans n >= 1 line
+// endings and whose length is within n (CRLF) of the 999-character limit for link labels: with one-byte line endings it
+// is at most 999 long, with two-byte line endings it is longer.
+func labelAtLimitAcrossLines(doc []byte) bool {
+	for i := 0; i < len(doc); i++ {
+		if doc[i] != '[' {
+			continue
+		}
+		n := 0
+		for j := i + 1; j < len(doc) && j-i-1 <= 1100; j++ {
+			c := doc[j]
+			if c == '\\' {
+				j++
+				continue
+			}
+			if c == '[' {
+				break
+			}
+			if c == '\n' {
+				n++
+			}
+			if c == ']' {
+				l := j - i - 1
+				if n >= 1 && l <= 999+n && l+n > 999-n {
+					return true
+				}
+				break
+			}
+		}
+	}
+	return false
 }
 
 // rootAboveStreamingLimit: some root block of the in-memory parse is (within one read chunk of) the streaming
